@@ -9,7 +9,9 @@ CONFIG = worlda.base_config(
     "alphabet (spaces, regex metacharacters, INBOX case variants, mailboxes below inbox, SPECIAL-USE names; depth <= 3) with APPENDs so that RENAME has content to keep, "
     "LIST/LSUB reference x pattern combinations and LIST-EXTENDED forms, orderly restarts interleaved. LIST/LSUB are compared with a namespace "
     "model using an independent wildcard matcher; refused commands must leave the on-disk tree unchanged; renamed subtrees are probed for "
-    "messages/UIDs/flags. non-trivial = >=1 namespace mutation acknowledged OK; distinct = op-kind signatures",
+    "messages/UIDs/flags. Every fifth program issues the namespace commands from 2-3 sessions concurrently (latency swarm): at quiescence LIST equals the "
+    "folders on disk, each name once, no symlink left, every listed mailbox selectable, and an orderly restart changes nothing. "
+    "non-trivial = >=1 namespace mutation acknowledged OK; distinct = op-kind signatures",
     level_text="history search against an executable namespace reference model on the real per-user server (real sqlite, real MH directories, simulated "
     "time and I/O completion order); exploration, since histories and names are unbounded.",
 )
@@ -33,4 +35,34 @@ def profile(r, tier, index):
     }
 
 
-generate, execute, simplifications = _common.make(PROP, profile, CONFIG)
+CONC_W = {"create": 5, "delete": 4, "rename": 6, "subscribe": 1, "status": 2, "list": 2, "select": 1, "append": 1}
+
+
+def conc_profile(r, tier, index):
+    return {
+        "mailboxes": ["inbox", "a", "a/b", "a/c", "b"][: r.randint(3, 5)], "sessions": r.randint(2, 3), "weights": CONC_W, "init_hi": 2,
+        "ops_lo": 4, "ops_hi": 14, "mode": "concurrent", "compare": False, "quiet_p": 0.05, "gc_p": 0.0, "name_alphabet": ["a", "b", "c", "z", "b1", "c d"],
+    }
+
+
+_gen_seq, execute, simplifications = _common.make(PROP, profile, CONFIG)
+
+
+def _post_conc(prog, r, tier, prof):
+    for op in prog["ops"]:
+        op["when"] = {"delay": r.choice((0.0, 0.0, 0.0, 0.001, 0.01, 0.05, 0.2))}
+        op.pop("bare", None)
+    prog["ns_quiescent"] = True
+    prog["family"] = "ns-concurrent"
+    return prog
+
+
+_gen_conc, _, _ = _common.make(PROP, conc_profile, CONFIG, _post_conc)
+
+
+def generate(seed, tier, index, kf):
+    # every fifth program: the namespace commands come from 2-3 sessions at once
+    if index % 5 == 4:
+        return _gen_conc(seed, tier, index, kf)
+    return _gen_seq(seed, tier, index, kf)
+
